@@ -103,6 +103,49 @@ fn install_through_side_effecting_expression(idt: &mut InterruptDescriptorTable,
     set_general_handler!(counted(idt), general, lo..=hi);
 }
 
+/// two general-handler installations around a reload of CS in one function: each carries the code segment that is
+/// current when it runs (single-step mode with an emulated CS, see C12)
+#[inline(never)]
+fn two_installations_around_a_cs_reload(idt1: &mut InterruptDescriptorTable, idt2: &mut InterruptDescriptorTable, sel: u16) {
+    use x86_64::instructions::segmentation::{Segment, CS};
+    crate::trapemu::step_begin();
+    set_general_handler!(idt1, general, 32..=35);
+    unsafe { CS::set_reg(SegmentSelector(sel)) };
+    set_general_handler!(idt2, general, 32..=35);
+    crate::trapemu::step_end();
+}
+
+fn cs_reload_between_installations(rep: &mut Report, r: &mut Rng, own: u16) {
+    use crate::trapemu;
+    for _ in 0..2 {
+        rep.eval();
+        let sel = match r.below(3) {
+            0 => 0x08,
+            1 => 0x10 | (r.below(4) as u16),
+            _ => (r.next() as u16 & 0xfff8).max(8),
+        };
+        let mut idt1 = Box::new(InterruptDescriptorTable::new());
+        let mut idt2 = Box::new(InterruptDescriptorTable::new());
+        let regs = trapemu::regs();
+        regs.sreg[1] = own;
+        regs.emulate_cs_reads = true;
+        let (_, evs) = trapemu::trapped(|| two_installations_around_a_cs_reload(&mut idt1, &mut idt2, sel));
+        let regs = trapemu::regs();
+        regs.emulate_cs_reads = false;
+        regs.sreg[1] = own;
+        let (b1, b2) = (bytes_of(&idt1), bytes_of(&idt2));
+        let bad = (32..=35usize).find(|&v| {
+            let (o1, s1, p1, _) = gate(&b1, v);
+            let (o2, s2, p2, _) = gate(&b2, v);
+            !(p1 && p2 && o1 != 0 && o2 != 0 && s1 == own && s2 == sel)
+        });
+        if let Some(v) = bad {
+            rep.violation("set_general_handler|around-a-CS-reload|gate-does-not-carry-the-code-segment-current-at-that-moment", J::obj(vec![("profile", J::s(profile_name())), ("vector", J::U(v as u64)), ("cs_before", J::hex(own as u64)), ("cs_after", J::hex(sel as u64)), ("first_table_selector", J::hex(gate(&b1, v).1 as u64)), ("second_table_selector", J::hex(gate(&b2, v).1 as u64)), ("cs_reads_executed", J::U(evs.iter().filter(|e| e.kind == trapemu::K::MovFromCs).count() as u64))]));
+        }
+        rep.class("install|code-segment-read-at-each-installation");
+    }
+}
+
 fn install_14(idt: &mut InterruptDescriptorTable) {
     set_general_handler!(idt, general, 14);
 }
@@ -511,6 +554,7 @@ pub fn run(a: &Args, rep: &mut Report) {
     }
     let scratch = Stack::new(1 << 18);
     let resume = Stack::new(1 << 16);
+    cs_reload_between_installations(rep, &mut r, cs);
     ranges(rep, &mut r, a, &stubs, cs, &scratch, &resume, ss);
     // simulated delivery into every present vector
     let frames = a.budget(8 * 4, 4_000 * 16) / 4;
